@@ -6,7 +6,7 @@ from props import c03
 
 
 def run(res, args):
-    res.rule = ("segment streams as in C03 with one victim frame at every position; corruption = single bits, bursts, byte "
+    res.rule = ("segment streams as in C03 with one victim frame at every position; corruption = single bits, bursts, whole fields forced to zeros or ones (the 12 type bits, the first payload bytes, the whole payload, the CRC), byte "
                 "overwrites, forced 0xD3 insertion, in payload and CRC (leader untouched, CRC mismatch guaranteed); thorough: every "
                 "single-bit corruption of every frame of 5-frame streams; the oracle is the segment list with the victim as "
                 "non-RTCM, and every later frame's full report (times included) must equal the run with the victim's slot "
@@ -28,7 +28,7 @@ def run(res, args):
         if not frames:
             continue
         v = rng.choice(frames)
-        mode = rng.choice(["bit", "burst", "byte", "d3", "crc", "ts"])
+        mode = rng.choice(["bit", "burst", "byte", "d3", "crc", "ts", "field", "field"])
         if mode == "ts" and len(segs[v][1]) >= 16:
             # a flipped bit in what would be an MSM timestamp (frame bits 48..77)
             g = bytearray(segs[v][1])
